@@ -228,3 +228,51 @@ func verifRealSub(a, b float64) float64 { return a - b }
 func verifRealMul(a, b float64) float64 { return a * b }
 func verifRealDiv(a, b float64) float64 { return a / b }
 func verifFloatIdeal() {}
+
+// ---- concurrency harnesses (L2) -------------------------------------------------------
+
+var (
+	verifThreads  []func()
+	verifFinalFn  func()
+	verifAtomicMu sync.Mutex
+)
+
+// verifThread declares a thread of a concurrency harness; verifRunThreads starts them all.
+func verifThread(name string, f func()) { verifThreads = append(verifThreads, f) }
+
+// verifFinally declares a check that runs once every thread (and every goroutine they started) is done.
+func verifFinally(f func()) { verifFinalFn = f }
+
+func verifOption(name string) {}
+
+// verifRunThreads: natively the threads are real goroutines (steered by verifSched when a
+// replay schedule is loaded); under the executor each thread is explored in event mode and the
+// schedule is an SMT variable.
+func verifRunThreads() {
+	var wg sync.WaitGroup
+	ts := verifThreads
+	verifThreads = nil
+	for _, f := range ts {
+		wg.Add(1)
+		go func(f func()) {
+			defer wg.Done()
+			f()
+		}(f)
+	}
+	wg.Wait()
+	verifRunBackground()
+	if verifFinalFn != nil {
+		verifFinalFn()
+		verifFinalFn = nil
+	}
+}
+
+// verifAtomic runs f as one indivisible step.
+func verifAtomic(f func()) {
+	verifAtomicMu.Lock()
+	defer verifAtomicMu.Unlock()
+	f()
+}
+
+// verifSched marks a scheduling point of harness code (used to steer native replays).
+func verifSched(label string) {}
